@@ -1094,6 +1094,50 @@ fn sparsity_groups() -> Option<String> {
     None
 }
 
+/// C13 / C08: under time reflection the events mirror: same number per function, times mirrored to root-finder accuracy, a
+/// crossing keeps its direction, which is stated in the order of integration
+fn event_reflection() -> Option<String> {
+    use ivp::solve::event::Direction;
+    struct Osc { refl: bool, dir: i32 }
+    impl IVP for Osc {
+        fn ode(&self, t: f64, y: &[f64], d: &mut [f64]) {
+            let tt = if self.refl { -t } else { t };
+            d[0] = y[1]; d[1] = -y[0] + 0.2 * (1.3 * tt).sin();
+            if self.refl { d[0] = -d[0]; d[1] = -d[1]; }
+        }
+        fn n_events(&self) -> usize { 2 }
+        fn events(&self, _t: f64, y: &[f64], out: &mut [f64]) { out[0] = y[0] - 0.3; out[1] = y[1] + 0.1; }
+        fn event_config(&self, _i: usize) -> EventConfig {
+            let mut c = EventConfig::new();
+            // the direction filter is stated in the order of integration (C08): the reflected run meets the same crossing the same way
+            let d = self.dir;
+            if d > 0 { c.direction(Direction::Positive); } else if d < 0 { c.direction(Direction::Negative); }
+            c
+        }
+    }
+    for m in [Method::RK23, Method::DOPRI5, Method::DOP853, Method::RADAU, Method::BDF] {
+        for dir in [0, 1, -1] {
+            for &(x0, xe) in &[(0.0f64, 12.0f64), (9.0, -4.0)] {
+                let o = || Options::builder().method(m.clone()).rtol(1e-8).atol(1e-10).build();
+                let a = match solve_ivp(&Osc { refl: false, dir }, x0, xe, &[1.0, 0.0], o()) { Ok(s) => s, Err(e) => return Some(format!("{:?}: {:?}", m, e)) };
+                let b = match solve_ivp(&Osc { refl: true, dir }, -x0, -xe, &[1.0, 0.0], o()) { Ok(s) => s, Err(e) => return Some(format!("{:?}: {:?}", m, e)) };
+                for k in 0..2 {
+                    if a.t_events[k].len() != b.t_events[k].len() {
+                        return Some(format!("{:?}: forced oscillator on [{}, {}], direction filter {}: event {} fires {} times, {} times in the time-reflected problem", m, x0, xe, dir, k, a.t_events[k].len(), b.t_events[k].len()));
+                    }
+                    if a.t_events[k].is_empty() && dir == 0 { return Some(format!("{:?}: forced oscillator on [{}, {}]: event {} never fires", m, x0, xe, k)); }
+                    for i in 0..a.t_events[k].len() {
+                        if (a.t_events[k][i] + b.t_events[k][i]).abs() > 1e-6 {
+                            return Some(format!("{:?}: forced oscillator on [{}, {}], direction filter {}: occurrence {} of event {} at t = {:e}, in the time-reflected problem at s = {:e}", m, x0, xe, dir, i, k, a.t_events[k][i], b.t_events[k][i]));
+                        }
+                    }
+                }
+            }
+        }
+    }
+    None
+}
+
 fn main() {
     let which = std::env::args().nth(1).unwrap_or_default();
     let r = match which.as_str() {
@@ -1104,6 +1148,7 @@ fn main() {
         "default_mass" => default_mass(),
         "matrix_dense_model" => matrix_dense_model(),
         "lu_small" => lu_small(),
+        "event_reflection" => event_reflection(),
         "sparsity_groups" => sparsity_groups(),
         "initial_modified_solution" => initial_modified_solution(),
         "events_order_independent" => events_order_independent(),
